@@ -176,11 +176,29 @@ def wireCheck (bp : Blueprint) (circ : Circuit) (intended0 : Array (List Nat)) (
       let seen (colour : Nat) : Bool := ((k.reads colour).inter (emits p)).isSome
       if (onR && seen 1) || (onG && seen 2) then none else some (i, p)))
   -- a producer planned for a wildcard operand must be visible on a colour that operand reads
+  -- the selection of the wildcard *input* operand (an `each` operand of an arithmetic combinator, the wildcard left
+  -- side of a decider row); for a gate that only copies (`everything` output) the selection of that output
+  let wildSel (k : Kind) : Option Sel := match k with
+    | .arith cfg =>
+      (match cfg.first, cfg.second with
+       | .ref .each s, _ => some s
+       | _, .ref .each s => some s
+       | _, _ => none)
+    | .decider cfg =>
+      (match cfg.conds.findSome? (fun cd => match cd.first with
+          | .ref .each s => some s | .ref .anything s => some s | .ref .everything s => some s | _ => none) with
+       | some s => some s
+       | none => cfg.outs.findSome? (fun o => match o.sig with | .everything => some o.sel | .each => some o.sel | _ => none))
+    | .controlled (some cd) =>
+      (match cd.first with | .ref .anything s => some s | .ref .everything s => some s | _ => none)
+    | _ => none
   let wildUnselected : List (Nat × Nat) := wild.flatMap (fun (i, ws) =>
     let k := circ.kind i
     ws.filterMap (fun p =>
-      let ok := [1, 2].any (fun colour =>
-        readsWild k colour && (if colour == 1 then circ.prodR.getD i [] else circ.prodG.getD i []).contains p)
+      let ok := match wildSel k with
+        | some sel => (sel.red && (circ.prodR.getD i []).contains p) || (sel.green && (circ.prodG.getD i []).contains p)
+        | none => [1, 2].any (fun colour =>
+            readsWild k colour && (if colour == 1 then circ.prodR.getD i [] else circ.prodG.getD i []).contains p)
       if ok then none else some (i, p)))
   let doubled : List (Nat × Nat) := wild.flatMap (fun (i, ws) =>
     let k := circ.kind i
